@@ -403,6 +403,12 @@ class FTPProcessorSession(BaseProcessorSession):
         self._item_session.update_record_value(status_code=response.reply.code)
         is_listing = isinstance(response, ListingResponse)
 
+        if is_listing:
+            # Queue the listed files before the final status of the listing
+            # is stored (storing it writes the queued URLs out first), so
+            # that a crash in between cannot lose them.
+            self._add_listing_links(response)
+
         if is_listing and not self._processor.fetch_params.remove_listing or \
                 not is_listing:
             filename = self._file_writer_session.save_document(response)
@@ -410,9 +416,6 @@ class FTPProcessorSession(BaseProcessorSession):
         else:
             self._file_writer_session.discard_document(response)
             action = self._result_rule.handle_no_document(self._item_session)
-
-        if isinstance(response, ListingResponse):
-            self._add_listing_links(response)
 
         return action
 
